@@ -95,7 +95,9 @@ PoolC01 == <<
   [W("ab") EXCEPT !.left = "dpipe", !.body = B("ab.ba^"), !.mkind = "redirect", !.mval = "r1"],
   [W("/bab") EXCEPT !.mkind = "redirect-rule", !.mval = "r2"],
   [W("ab") EXCEPT !.mkind = "removeparam", !.mval = "ab"],
-  [W("ab.ba^") EXCEPT !.left = "dpipe", !.mkind = "csp", !.mval = "d1"]
+  [W("ab.ba^") EXCEPT !.left = "dpipe", !.mkind = "csp", !.mval = "d1"],
+  \* a rule that differs from another one only in the case of a case-sensitive payload is a different rule
+  [W("ab") EXCEPT !.mkind = "removeparam", !.mval = "AB"]
 >>
 ReqsC01 == <<
   MkReq("https", "ab.ba", "/ab/ba/bab", "script", "ab.ba"),
@@ -116,7 +118,8 @@ ReqsC01 == <<
   MkReq("https", "xab.ba", "/ab/ba", "script", "x.com"),
   MkReq("https", "x.com", "/x/ab.ba/ab", "script", "x.com"),
   MkReq("ftp", "ab.ba", "/ab/ba/bab", "script", "ab.ba"),
-  MkReq("https", "x.com", "/ab/abab", "script", "x.com")
+  MkReq("https", "x.com", "/ab/abab", "script", "x.com"),
+  MkReq("https", "x.com", "/ab?AB=1&ab=2", "xhr", "x.com")
 >>
 
 --------------------------------------------------------------------------
@@ -354,14 +357,14 @@ ResC13 == EffectiveStore(ResSeqC13)
 \* universe c14: removeparam
 RP(name) == [R0 EXCEPT !.left = "dpipe", !.body = B("ab.ba^"), !.mkind = "removeparam", !.mval = name]
 PoolC14 == <<
-  RP("a"), RP("b"), RP("ab"), [RP("a") EXCEPT !.pos = {"image"}], [RP("b") EXCEPT !.neg = {"xmlhttprequest"}],
+  RP("a"), RP("b"), RP("ab"), RP("A"), [RP("a") EXCEPT !.pos = {"document"}], [RP("a") EXCEPT !.pos = {"image"}], [RP("b") EXCEPT !.neg = {"xmlhttprequest"}],
   [RP("a") EXCEPT !.important = TRUE], [R0 EXCEPT !.body = B("/p"), !.important = TRUE],
   [R0 EXCEPT !.body = B("/p")], [R0 EXCEPT !.body = B("a=1"), !.exc = TRUE], [RP("A") EXCEPT !.dom = {"x.com"}]
 >>
 QueryShapes == {"", "?", "?a=1", "?a=", "?a", "?=1", "?a=1&b=2", "?b=2&a=1", "?a=1&a=3", "?a=x=y", "?a=1&&b=2",
                 "?&a=1", "?a=1&", "?b&a=1", "?ab=1&a=2", "?A=1", "?a=1&b=", "?c=3", "?a=%20", "?b=2&c=3&a=1",
                 \* non-ASCII keys and values, an encoded '&' inside a value, ';' is not a separator
-                "?a=é&b=2", "?é=1&a=1", "?a=1%26b=2&b=3", "?a=1;b=2"}
+                "?a=é&b=2", "?é=1&a=1", "?a=1%26b=2&b=3", "?a=1;b=2", "?A=1&a=2"}
 FragShapes == {"", "#f", "#f?a=1", "#", "#a=1&b=2"}
 \* the URL text may be spelled in a non-normalised way (upper-case scheme); the rewrite must keep it
 MkReqU(schemeText, scheme, host, path, alias, src) ==
